@@ -245,6 +245,9 @@ pub struct VecCfg {
     /// also run the cursor-based read paths on vectors with deleted slots (known to loop
     /// forever / panic there, see F8; each such case costs one watchdog timeout)
     pub holed_cursor: bool,
+    /// operations applied (to implementation and model) before exploration starts:
+    /// exploration from a non-initial state
+    pub prefill: Vec<VecOp>,
 }
 
 impl VecCfg {
@@ -1009,14 +1012,18 @@ where
         tap::ensure_installed();
         let db = Database::open(dir).expect("open");
         let vec = V::s_import(&db, cfg.retention).expect("import");
-        Self {
+        let mut this = Self {
             dir: dir.to_path_buf(),
             db: Some(db),
             vec: Some(vec),
             model: Model::new(),
             counters: BTreeMap::new(),
             _p: PhantomData,
+        };
+        for op in &cfg.prefill {
+            this.apply(cfg, op, false);
         }
+        this
     }
 
     fn ops(&self, cfg: &VecCfg) -> Vec<VecOp> {
